@@ -1,15 +1,23 @@
 #!/bin/bash
-# usage: tools/mutrun.sh <patch.diff> <PROP> [<PROP>...]   applies the patch to /repo, runs the quick checks, reverts
+# usage: tools/mutrun.sh <patch.diff> <PROP> [<PROP>...]
+# applies the patch to a scratch worktree of /repo's HEAD (outside /repo and /verif), runs the quick checks against
+# it (J1939_VERIF_REPO), removes the worktree.  INPLACE=1: apply to /repo itself instead and revert afterwards.
 set -u
-P=$1; shift
-cd /repo || exit 9
-if [ -n "$(git status --porcelain --untracked-files=no)" ]; then echo "REPO DIRTY"; exit 9; fi
-if ! git apply "$P" 2>/dev/null; then
-  if ! patch -p1 -s --no-backup-if-mismatch < "$P"; then echo "PATCH DOES NOT APPLY"; git checkout -- .; exit 8; fi
+P=$(readlink -f "$1"); shift
+if [ "${INPLACE:-0}" = 1 ]; then
+  cd /repo || exit 9
+  if [ -n "$(git status --porcelain --untracked-files=no)" ]; then echo "REPO DIRTY"; exit 9; fi
+  if ! git apply "$P" 2>/dev/null; then patch -p1 -s --no-backup-if-mismatch < "$P" || { echo "PATCH DOES NOT APPLY"; git checkout -- .; exit 8; }; fi
+  WT=/repo
+else
+  WT=/tmp/mr_$$_$RANDOM
+  git -C /repo worktree add -q --detach $WT HEAD || exit 9
+  cd $WT
+  if ! git apply "$P" 2>/dev/null; then patch -p1 -s --no-backup-if-mismatch < "$P" || { echo "PATCH DOES NOT APPLY"; cd /; git -C /repo worktree remove --force $WT; exit 8; }; fi
 fi
 cd /verif
 for prop in "$@"; do
-  out=$(timeout 1200 ./check "$prop" --tier ${TIER:-quick} 2>&1); rc=$?
-  echo "== $prop rc=$rc"; echo "$out" | grep -E "VIOLATION|what:|KNOWN|HARNESS|wall=" | head -${LINES_MAX:-6}
+  out=$(J1939_VERIF_REPO=$WT timeout 1500 ./check "$prop" --tier ${TIER:-quick} 2>&1); rc=$?
+  echo "== $prop rc=$rc"; echo "$out" | grep -E "VIOLATION|what:|KNOWN|HARNESS|wall=" | head -${LINES_MAX:-5}
 done
-git -C /repo checkout -- .
+if [ "${INPLACE:-0}" = 1 ]; then git -C /repo checkout -- .; else cd /; git -C /repo worktree remove --force $WT; fi
